@@ -220,6 +220,11 @@ Definition effective_outfile (first_source : str) (emitted_list : list emitted)
   | _, _ => outfile
   end.
 
+(* metacommands.include: the included file is parsed under its RESOLVED path -- the operand
+   resolved against the including file -- and that is the state["filename"] its directives see *)
+Definition included_name (operand including_filename : str) : str :=
+  resolve_relative_path operand including_filename.
+
 (* outputs of a successful run: the directives' files in order, then the -o / --implicit-bin
    file.  [emitted_list] are the directives of all linked files; an error among them fails the
    assembly before anything is written. *)
